@@ -9,6 +9,7 @@ import (
 	"bytes"
 	"fmt"
 	"math"
+	"reflect"
 	"strconv"
 	"strings"
 	"unicode/utf8"
@@ -44,8 +45,26 @@ func (lx *Lexer) VerifStep(r rune) error { return lx.LexNextRune(r) }
 
 // VerifShort: the scalar fields, the buffer and the length of the token queue.
 func (lx *Lexer) VerifShort() string {
-	return fmt.Sprintf("%d.%d.%d.%d.%d.%d;%s", int(lx.state), int(lx.prevrune), int(lx.preBuiltinRune),
-		lx.priori, lx.linenum, len(lx.tokens), VerifCodes(lx.buffer.String()))
+	// the fields of a pending hex escape (repo fix C12-02) are read by name so that this
+	// file also compiles against a tree that does not have them (they then read as zero)
+	esc := [3]uint32{}
+	v := reflect.ValueOf(lx).Elem()
+	for i, name := range []string{"escDigits", "escValue", "escByte"} {
+		f := v.FieldByName(name)
+		if !f.IsValid() {
+			continue
+		}
+		switch f.Kind() {
+		case reflect.Bool:
+			if f.Bool() {
+				esc[i] = 1
+			}
+		default:
+			esc[i] = uint32(f.Int())
+		}
+	}
+	return fmt.Sprintf("%d.%d.%d.%d.%d.%d.%d.%d.%d;%s", int(lx.state), int(lx.prevrune), int(lx.preBuiltinRune),
+		lx.priori, lx.linenum, len(lx.tokens), esc[0], esc[1], esc[2], VerifCodes(lx.buffer.String()))
 }
 
 // VerifFull: every field of the lexer (streams as a count of queued streams and whether a
